@@ -3,7 +3,16 @@
  * true last element.  (Also used by C15 via mode "clear".)
  *
  * cases: [0, NCLOSURE)       closure / bounded-exhaustive scopes
- *        [NCLOSURE, ...)      seeded random histories
+ *        then NBIG            lists of 70 000 elements
+ *        then nruns()         sorts of 800 .. 33 000 (thorough 200 000) elements whose keys come in runs
+ *                             (run_shapes[] x runs ascending/descending x comparator ascending/descending),
+ *                             with a push_back probe right after the sort
+ *        the rest             seeded random histories
+ * (mode "clear" has the closure scopes and the random histories only)
+ *
+ * foreach with key 1: the visitor calls size/front/back and foreach on the list that is being walked and on
+ * another one (read-only re-entrancy), with early stop of the inner and of the outer walk (keys
+ * slist.foreach.reentrant.*).
  */
 #include "vrt.h"
 #include "explore.h"
@@ -53,6 +62,7 @@ static const char *kindname[K_NKINDS] = {
 #define OP_KEY(o)  (((o) >> 12) & 15)
 #define OP_POS(o)  ((o) >> 16)
 #define NOSTOP 0xffff
+#define POS_LAST 0xfffe     /* foreach whose visitor reads the lists: stop at the last visit, wherever that is (lists of 3 and more) */
 
 static struct elem *new_elem(int id, int key)
 {
@@ -128,6 +138,54 @@ static int visit_cb(void *e, void *p)
     w->n++;
     if (w->stop_at == w->n - 1) return w->stop_val;
     return 0;
+}
+
+/* ---- read-only re-entrancy: a visitor that looks at the list it is being shown, and at another one ----
+ * size, front, back and foreach change nothing, so a visitor may call them on any list, including the one that is
+ * being walked (the all-pairs loop); the outer walk must go on as if nothing had happened. */
+static void look_at(int l, int same, int full, unsigned salt)
+{
+    struct cstl_slist *sl = &L[l];
+    const int len = Mn[l];
+    struct walkp w = { l, 0, -1, 0, 0 };
+    int r;
+
+    VRT_CHECK(cstl_slist_size(sl) == (size_t)len, "slist.foreach.reentrant.size", "size of list %d read inside a visitor: %zu, reference %d", l, cstl_slist_size(sl), len);
+    VRT_CHECK(cstl_slist_front(sl) == (len ? (void *)M[l][0] : NULL), "slist.foreach.reentrant.front", "front of list %d read inside a visitor is not the reference first (len %d)", l, len);
+    VRT_CHECK(cstl_slist_back(sl) == (len ? (void *)M[l][len - 1] : NULL), "slist.foreach.reentrant.back", "back of list %d read inside a visitor is not the reference last (len %d)", l, len);
+    if (!full && len > 0) {
+        w.stop_at = (int)((salt >> 1) % (unsigned)(len < 40 ? len : 40));
+        w.stop_val = vrt_stop_value(salt * 7u + 3u);
+    }
+    r = cstl_slist_foreach(sl, visit_cb, &w);
+    VRT_CHECK(w.bad == 0, "slist.foreach.reentrant.inner.order", "walk of list %d started inside a visitor: wrong element at visit %d (len %d)", l, w.bad - 1, len);
+    if (w.stop_at >= 0) {
+        VRT_CHECK(w.n == w.stop_at + 1, "slist.foreach.reentrant.inner.incomplete", "walk of list %d started inside a visitor made %d visits, the stop was due at visit %d", l, w.n, w.stop_at);
+        VRT_CHECK(r == w.stop_val, "slist.foreach.reentrant.inner.stop-value", "walk started inside a visitor returned %d, its visitor's non-zero result was %d", r, w.stop_val);
+        VRT_COUNT("foreach.reentrant.inner-early-stop");
+    } else {
+        VRT_CHECK(w.n == len, "slist.foreach.reentrant.inner.incomplete", "walk of list %d started inside a visitor made %d visits over %d elements", l, w.n, len);
+        VRT_CHECK(r == 0, "slist.foreach.reentrant.inner.ret", "walk started inside a visitor returned %d without a stop request", r);
+        if (len >= 2) { if (same) VRT_COUNT("foreach.reentrant.inner-full-walk.same-list"); else VRT_COUNT("foreach.reentrant.inner-full-walk.other-list"); }
+    }
+}
+static int nest_cb(void *e, void *p)
+{
+    struct walkp *w = p;
+    const int i = w->n, len = Mn[w->l];
+    const unsigned salt = (unsigned)i * 2654435761u + 40503u * vrt_case_tick();
+    int full;
+
+    if (i >= len || M[w->l][i] != e) { w->bad = 1 + i; return 99; }
+    w->n++;
+    /* short lists: every third inner walk is complete (all pairs); long ones: at the first, the middle and the last visit */
+    full = len <= 40 ? (salt >> 7) % 3 == 0 || len <= 3 : (i == 0 || i == len / 2 || i == len - 1);
+    look_at(w->l, 1, full, salt >> 9);
+    if (nlists > 1) {
+        look_at((w->l + 1 + ((i & 1) && nlists > 2)) % nlists, 0, len <= 40 ? (salt >> 5) % 2 == 0 : i == len / 3, salt >> 11);
+        VRT_COUNT("foreach.reentrant.other-list");
+    }
+    return w->stop_at == i ? w->stop_val : 0;
 }
 
 static void audit_list(int l)
@@ -355,18 +413,24 @@ static int st_apply(uint32_t op, int audit)
     }
     case K_FOREACH: {
         struct walkp w = { l1, 0, -1, 0, 0 };
-        int rr, stop = pos == NOSTOP ? -1 : pos;
-        if (stop >= Mn[l1]) return 0;
+        int rr, stop = pos == NOSTOP ? -1 : pos == POS_LAST ? Mn[l1] - 1 : pos;
+        const int re = key == 1;        /* the visitor reads the list it is shown, and another one */
+        if (stop >= Mn[l1] || key > 1 || (pos == POS_LAST && (!re || Mn[l1] < 3))) return 0;
         w.stop_at = stop; w.stop_val = vrt_stop_value((unsigned)stop * 31u + 5u * vrt_case_tick());    /* any non-zero value stops */
-        VRT_OP2("slist.foreach", "l%ld stop@%ld", l1, stop);
-        rr = cstl_slist_foreach(&L[l1], visit_cb, &w);
-        VRT_CHECK(w.bad == 0, "slist.foreach.order", "foreach visited a wrong element at index %d", w.bad - 1);
+        vrt_state(re ? (stop < 0 ? "visitor-reads-the-lists" : "visitor-reads-the-lists-and-stops") : stop < 0 ? "plain" : "early-stop");
+        VRT_OP3("slist.foreach", "l%ld stop@%ld visitor-reads-lists=%ld", l1, stop, re);
+        rr = cstl_slist_foreach(&L[l1], re ? nest_cb : visit_cb, &w);
+        VRT_CHECK(w.bad == 0, re ? "slist.foreach.reentrant.order" : "slist.foreach.order", "foreach visited a wrong element (or went on after the stop) at index %d", w.bad - 1);
         if (stop < 0) {
-            VRT_CHECK(rr == 0 && w.n == Mn[l1], "slist.foreach.full", "foreach returned %d after %d of %d", rr, w.n, Mn[l1]);
+            VRT_CHECK(rr == 0 && w.n == Mn[l1], re ? "slist.foreach.reentrant.incomplete" : "slist.foreach.full", "foreach returned %d after %d of %d", rr, w.n, Mn[l1]);
         } else {
-            VRT_CHECK(rr == w.stop_val, "slist.foreach.stop-value", "foreach returned %d, visitor asked %d", rr, w.stop_val);
-            VRT_CHECK(w.n == stop + 1, "slist.foreach.continued", "foreach made %d visits, stop requested at %d", w.n, stop);
+            VRT_CHECK(rr == w.stop_val, re ? "slist.foreach.reentrant.stop-value" : "slist.foreach.stop-value", "foreach returned %d, visitor asked %d", rr, w.stop_val);
+            VRT_CHECK(w.n == stop + 1, re ? "slist.foreach.reentrant.incomplete" : "slist.foreach.continued", "foreach made %d visits, stop requested at %d", w.n, stop);
             VRT_COUNT("op.foreach.early-stop");
+        }
+        if (re && Mn[l1] >= 2) {
+            VRT_COUNT("op.foreach.reentrant");
+            if (stop >= 0) VRT_COUNT("op.foreach.reentrant.outer-stop");
         }
         VRT_COUNT("op.foreach");
         return 1;       /* not mutating: lastkind unchanged */
@@ -470,6 +534,11 @@ static int build_alphabet(const struct cscope *s, uint32_t *al)
         al[n++] = OP(K_CLEAR, l, 0, 0, 0);
         al[n++] = OP(K_FOREACH, l, 0, 0, NOSTOP);
         for (p = 0; p < s->np; p++) al[n++] = OP(K_FOREACH, l, 0, 0, p);
+        /* the visitor reads the same and another list; no outer stop, outer stop at the first, the second and the last visit */
+        al[n++] = OP(K_FOREACH, l, 0, 1, NOSTOP);
+        al[n++] = OP(K_FOREACH, l, 0, 1, 0);
+        al[n++] = OP(K_FOREACH, l, 0, 1, 1);
+        al[n++] = OP(K_FOREACH, l, 0, 1, POS_LAST);
         for (l2 = 0; l2 < s->nl; l2++) if (l2 != l) {
             al[n++] = OP(K_CONCAT, l, l2, 0, 0);
             if (l < l2) al[n++] = OP(K_SWAP, l, l2, 0, 0);
@@ -534,7 +603,10 @@ static void run_random(uint64_t idx)
         }
         else if (r < 86) op = OP(K_CONCAT, l, l2, 0, 0);
         else if (r < 92) op = OP(K_SWAP, l, l2, 0, 0);
-        else if (r < 98) op = OP(K_FOREACH, l, 0, 0, (len && vrt_chance(&g, 1, 2)) ? (int)vrt_below(&g, len) : NOSTOP);
+        else if (r < 98) {
+            const int re = vrt_chance(&g, 1, 4);        /* the visitor reads the same and another list */
+            op = OP(K_FOREACH, l, 0, re, (len && vrt_chance(&g, 1, 2)) ? (int)vrt_below(&g, len) : NOSTOP);
+        }
         else op = OP(K_CLEAR, l, 0, 0, 0);
         if (st_apply(op, audit)) {
             /* follow with a push_back probe with probability 1/2 (C13 tail clause) */
@@ -608,6 +680,246 @@ static void run_big(uint64_t which)
     VRT_COUNT("big.cases");
     vrt_sig(0, 0xb16 + which);
 }
+/* ---- sort inputs with run structure ----
+ * What a natural / bottom-up merge sort with a fixed-size stack of pending runs keys on: the number of maximal
+ * ascending (or descending) runs, the sequence of their lengths, and whether the comparator's order agrees with
+ * them.  A few cheap big lists per shape; the oracle is the one of K_SORT (ordered permutation of the same
+ * elements, link chain and tail consistent, push_back lands behind the true last).  In every second case the
+ * comparator now and then sorts ANOTHER (small) list with another comparison function and another priv: sorts of
+ * distinct lists know nothing of each other. */
+struct relem { int key; unsigned mark; uint64_t pad; struct cstl_slist_node n; };
+struct selem { uint64_t pad[3]; struct cstl_slist_node n; int key; };
+#define NSIDE 11
+static struct selem SIDE[NSIDE];
+static struct cstl_slist side_list;
+static int side_tag;
+static struct runs_ctx {
+    int dir;                    /* +1 ascending, -1 descending */
+    struct relem *E; size_t n;  /* the elements that may be compared */
+    long budget;
+    unsigned long calls, nested;
+    int nest, in_nested;
+} RC;
+static struct relem **RORD;     /* order seen by the traversal */
+static size_t RLn;              /* number of elements linked */
+
+static int side_cmp(const void *a, const void *b, void *p)
+{
+    const struct selem *x = a, *y = b;
+    VRT_CHECK(p == (void *)&side_tag, "slist.sort.nested.cmp-priv", "comparison function of the sort started inside a comparator called with wrong priv %p", p);
+    VRT_CHECK(x >= SIDE && x < SIDE + NSIDE && y >= SIDE && y < SIDE + NSIDE, "slist.sort.nested.cmp-foreign-element",
+              "comparison function of the sort started inside a comparator called with elements of another list");
+    VRT_CHECK(RC.in_nested, "slist.sort.nested.cmp-after-return", "comparison function of the inner sort called after that sort had returned");
+    return (x->key < y->key) - (x->key > y->key);       /* descending */
+}
+static void nested_sort(struct runs_ctx *c)
+{
+    const struct cstl_slist_node *q, *lastn = &side_list.h;
+    int i, last = 0x7fffffff;
+    for (i = 0; i < NSIDE; i++) SIDE[i].key = (int)((c->calls / 7 + (unsigned)i * 5u) % 13u);
+    c->in_nested = 1;
+    cstl_slist_sort(&side_list, side_cmp, &side_tag);
+    c->in_nested = 0;
+    for (q = side_list.h.n, i = 0; q != NULL && i <= NSIDE; q = q->n, i++) {
+        const struct selem *x = (const struct selem *)((const char *)q - offsetof(struct selem, n));
+        VRT_CHECK(x >= SIDE && x < SIDE + NSIDE, "slist.sort.nested.links", "foreign node in the list sorted inside a comparator");
+        VRT_CHECK(x->key <= last, "slist.sort.nested.unordered", "list sorted inside a comparator is out of order at %d", i);
+        last = x->key; lastn = q;
+    }
+    VRT_CHECK(i == NSIDE && q == NULL && cstl_slist_size(&side_list) == NSIDE, "slist.sort.nested.length", "list sorted inside a comparator has %d elements linked, size %zu", i, cstl_slist_size(&side_list));
+    VRT_CHECK(side_list.t == lastn, "slist.sort.nested.tail-not-last", "tail of the list sorted inside a comparator is not its last node");
+    c->nested++;
+}
+static int runs_is_elem(const void *e)
+{
+    const char *c = e, *b = (const char *)RC.E;
+    return c >= b && c < b + RC.n * sizeof(struct relem) && (size_t)(c - b) % sizeof(struct relem) == 0;
+}
+static int runs_cmp(const void *a, const void *b, void *p)
+{
+    struct runs_ctx *c = &RC;
+    const struct relem *x = a, *y = b;
+    int r;
+    VRT_CHECK(p == (void *)&RC, "slist.sort.cmp-priv", "comparison called with wrong priv %p", p);
+    VRT_CHECK(!c->in_nested && runs_is_elem(a) && runs_is_elem(b), "slist.sort.cmp-non-element", "comparison called with a non-element");
+    VRT_CHECK(c->budget-- > 0, "slist.sort.runaway", "sort made more than 64*n+64 comparisons");
+    c->calls++;
+    if (c->nest && (c->calls & 511) == 257) nested_sort(c);
+    r = (x->key > y->key) - (x->key < y->key);
+    if (c->dir < 0) r = -r;
+    return (c->calls & 7) == 3 ? vrt_cmp_result(r, (unsigned)c->calls) : r * (int)(1 + c->calls % 997);
+}
+struct rwalk { size_t n; int bad, dir, last; unsigned stamp; };
+static int runs_fwd_cb(void *e, void *p)
+{
+    struct rwalk *w = p;
+    struct relem *x = e;
+    if (w->n >= RLn) { w->bad = 1; return 91; }
+    if (!runs_is_elem(e)) { w->bad = 2; return 92; }
+    if (x->mark == w->stamp) { w->bad = 3; return 93; }
+    x->mark = w->stamp;
+    if (w->n > 0 && (w->dir > 0 ? x->key < w->last : x->key > w->last)) { w->bad = 4; return 94; }
+    w->last = x->key;
+    RORD[w->n++] = x;
+    return 0;
+}
+static void runs_sort_and_check(struct cstl_slist *a, int dir, unsigned stamp)
+{
+    struct rwalk w;
+    const struct cstl_slist_node *q, *lastn = &a->h;
+    size_t n;
+    int r;
+    RC.dir = dir; RC.budget = 64L * (long)RLn + 64; RC.in_nested = 0;
+    vrt_state(dir > 0 ? "runs-ascending-order" : "runs-descending-order");
+    VRT_OP2("slist.sort", "%ld elements with run structure, direction %ld", RLn, dir);
+    cstl_slist_sort(a, runs_cmp, &RC);
+    VRT_CHECK(cstl_slist_size(a) == RLn, "slist.sort.runs.size", "size %zu after sort of %zu elements", cstl_slist_size(a), RLn);
+    memset(&w, 0, sizeof(w)); w.dir = dir; w.stamp = stamp;
+    r = cstl_slist_foreach(a, runs_fwd_cb, &w);
+    VRT_CHECK(w.bad != 1, "slist.sort.runs.overlong", "traversal after sort yields more than the %zu elements that were in the list", RLn);
+    VRT_CHECK(w.bad != 2, "slist.sort.runs.foreign-element", "element at %zu after sort was not in the list", w.n);
+    VRT_CHECK(w.bad != 3, "slist.sort.runs.not-a-permutation", "element at %zu after sort appears twice", w.n);
+    VRT_CHECK(w.bad != 4, "slist.sort.runs.unordered", "keys out of order at %zu of %zu (%s sort)", w.n, RLn, dir > 0 ? "ascending" : "descending");
+    VRT_CHECK(w.n == RLn && r == 0, "slist.sort.runs.length", "sort changed the number of linked elements: %zu vs %zu", w.n, RLn);
+    VRT_CHECK(cstl_slist_front(a) == (void *)RORD[0], "slist.sort.runs.front", "front after sort is not the first of the traversal");
+    VRT_CHECK(cstl_slist_back(a) == (void *)RORD[RLn - 1], "slist.sort.runs.back", "back after sort is not the last of the traversal");
+    /* white-box extra: the chain and the tail */
+    for (q = a->h.n, n = 0; q != NULL && n < RLn; q = q->n, n++) {
+        VRT_CHECK(q == &RORD[n]->n, "slist.walker.runs.chain", "node %zu of the chain after sort is not the one the traversal showed", n);
+        lastn = q;
+    }
+    VRT_CHECK(q == NULL && n == RLn, "slist.walker.runs.length", "link chain does not end after %zu nodes", RLn);
+    VRT_CHECK(a->t == lastn, "slist.walker.tail-not-last", "tail pointer is not the last node after sort (len %zu)", RLn);
+}
+
+enum { RS_DECR, RS_INCR, RS_EQUAL, RS_LONG_ONES, RS_ONES_LONG, RS_SAW, RS_ORGAN, RS_RANDOM, RS_GEOM, RS_FIB };
+struct rshape { int shape, param; size_t n; };
+static const struct rshape run_shapes[] = {
+    { RS_DECR, 40, 0 }, { RS_DECR, 72, 0 }, { RS_DECR, 100, 0 }, { RS_DECR, 150, 0 },  /* run lengths k, k-1, ..., 1 */
+    { RS_INCR, 40, 0 }, { RS_INCR, 72, 0 }, { RS_INCR, 100, 0 }, { RS_INCR, 150, 0 },  /* 1, 2, ..., k */
+    { RS_EQUAL, 2, 4000 }, { RS_EQUAL, 3, 6000 }, { RS_EQUAL, 5, 20000 },
+    { RS_LONG_ONES, 0, 3000 }, { RS_ONES_LONG, 0, 3000 },                              /* one long run, many of length 1 */
+    { RS_SAW, 7, 5000 }, { RS_SAW, 100, 20000 }, { RS_ORGAN, 0, 4001 },
+    { RS_RANDOM, 3, 0 }, { RS_RANDOM, 8, 0 }, { RS_RANDOM, 300, 0 },                   /* random lengths 1..param */
+    { RS_GEOM, 0, 14 }, { RS_GEOM, 1, 14 }, { RS_FIB, 0, 20 }, { RS_FIB, 1, 20 },      /* 2^14, 2^13, ..., 1 / Fibonacci lengths; 1: shortest first */
+#define NRS_QUICK 23
+    { RS_DECR, 632, 0 }, { RS_INCR, 632, 0 }, { RS_EQUAL, 2, 200000 }, { RS_EQUAL, 5, 200000 },
+    { RS_LONG_ONES, 0, 200000 }, { RS_ONES_LONG, 0, 200000 }, { RS_RANDOM, 64, 200000 }, { RS_SAW, 3, 200000 },
+};
+#define NRS_ALL ((int)(sizeof(run_shapes) / sizeof(run_shapes[0])))
+static const char *const rs_name[] = { "decreasing-lengths", "increasing-lengths", "equal-lengths", "long-then-ones", "ones-then-long",
+                                       "sawtooth", "organ-pipe", "random-lengths", "halving-lengths", "fibonacci-lengths" };
+
+/* the keys of one maximal non-descending run (dup: steps 0..2 instead of 1), starting below the end of the previous one */
+struct rgen { vrt_rng *g; int *key; size_t n, cap; int have, last, dup; size_t runs; };
+static void emit_run(struct rgen *G, size_t len)
+{
+    int k = (int)vrt_below(G->g, 1000);
+    if (len == 0 || G->n >= G->cap) return;
+    if (G->have && k >= G->last) k = G->last - 1 - (int)vrt_below(G->g, 3);
+    while (len-- > 0 && G->n < G->cap) {
+        G->key[G->n++] = k;
+        G->last = k;
+        k += G->dup ? (int)vrt_below(G->g, 3) : 1;
+    }
+    G->have = 1; G->runs++;
+}
+static size_t runs_total(const struct rshape *s, vrt_rng *g)
+{
+    size_t f0 = 1, f1 = 1, t = 0;
+    int i;
+    switch (s->shape) {
+    case RS_DECR: case RS_INCR: return (size_t)s->param * (s->param + 1) / 2;
+    case RS_GEOM: return ((size_t)2 << s->n) - 1;
+    case RS_FIB: for (i = 0; i < (int)s->n; i++) { size_t f = f0 + f1; t += f0; f0 = f1; f1 = f; } return t;
+    case RS_RANDOM: return s->n ? s->n : 2000 + vrt_below(g, 18000);
+    default: return s->n;
+    }
+}
+static void runs_keys(const struct rshape *s, struct rgen *G)
+{
+    size_t i, fib[64];
+    switch (s->shape) {
+    case RS_DECR: for (i = s->param; i >= 1; i--) emit_run(G, i); break;
+    case RS_INCR: for (i = 1; i <= (size_t)s->param; i++) emit_run(G, i); break;
+    case RS_EQUAL: while (G->n < G->cap) emit_run(G, s->param); break;
+    case RS_LONG_ONES: emit_run(G, G->cap / 2); while (G->n < G->cap) emit_run(G, 1); break;
+    case RS_ONES_LONG: while (G->n < G->cap / 2) emit_run(G, 1); emit_run(G, G->cap - G->n); break;
+    case RS_SAW: for (i = 0; i < G->cap; i++) G->key[G->n++] = (int)(i % (size_t)s->param); G->runs = G->cap / s->param; break;
+    case RS_ORGAN: for (i = 0; i < G->cap; i++) G->key[G->n++] = (int)(i < G->cap / 2 ? i : G->cap - 1 - i); G->runs = G->cap / 2; break;
+    case RS_RANDOM: while (G->n < G->cap) emit_run(G, 1 + vrt_below(G->g, s->param)); break;
+    case RS_GEOM:
+        for (i = 0; i <= s->n; i++) emit_run(G, (size_t)1 << (s->param ? i : s->n - i));
+        break;
+    case RS_FIB:
+        fib[0] = fib[1] = 1;
+        for (i = 2; i < s->n; i++) fib[i] = fib[i - 1] + fib[i - 2];
+        for (i = 0; i < s->n; i++) emit_run(G, fib[s->param ? i : s->n - 1 - i]);
+        break;
+    }
+}
+static void run_runs(uint64_t which)
+{
+    const int nshapes = vrt_thorough ? NRS_ALL : NRS_QUICK;
+    const struct rshape *s = &run_shapes[which % nshapes];
+    const int v = (int)(which / nshapes);           /* 0..3: runs ascending/descending x comparator ascending/descending */
+    const int mirror = v & 1, dir = (v & 2) ? -1 : 1;
+    struct cstl_slist a;
+    struct rgen G;
+    struct relem *E;
+    vrt_rng g;
+    size_t i, n;
+    int *key;
+
+    vrt_rng_seed(&g, vrt_seed, 0xC13A00 + which);
+    n = runs_total(s, &g);
+    key = vrt_alloc(sizeof(*key) * n);
+    memset(&G, 0, sizeof(G));
+    G.g = &g; G.key = key; G.cap = n; G.dup = (int)vrt_below(&g, 2);
+    runs_keys(s, &G);
+    n = G.n;
+    E = vrt_alloc(sizeof(*E) * (n + 1));            /* one spare element for the push_back probe */
+    RORD = vrt_alloc(sizeof(*RORD) * (n + 1));
+    memset(E, 0x5e, sizeof(*E) * (n + 1));
+    memset(&RC, 0, sizeof(RC));
+    RC.E = E; RC.n = n + 1; RC.nest = (int)((which + v) & 1);
+    vrt_case_note("sort of %zu elements in %zu %s runs: %s (param %d), comparator %s%s", n, G.runs, mirror ? "descending" : "ascending",
+                  rs_name[s->shape], s->param, dir > 0 ? "ascending" : "descending", RC.nest ? ", comparator sorts another list now and then" : "");
+    memset(&side_list, 0x77, sizeof(side_list));
+    cstl_slist_init(&side_list, offsetof(struct selem, n));
+    for (i = 0; i < NSIDE; i++) { SIDE[i].key = (int)i; cstl_slist_push_back(&side_list, &SIDE[i]); }
+    memset(&a, 0x77, sizeof(a));
+    cstl_slist_init(&a, offsetof(struct relem, n));
+    VRT_OP1("slist.push_back", "%ld elements", n);
+    for (i = 0; i < n; i++) {
+        E[i].key = mirror ? -key[i] : key[i]; E[i].mark = 0;
+        if (which & 4) cstl_slist_push_back(&a, &E[i]);
+    }
+    if (!(which & 4)) for (i = n; i-- > 0; ) cstl_slist_push_front(&a, &E[i]);
+    RLn = n;
+    runs_sort_and_check(&a, dir, 1);
+    /* push_back right after sort appends behind the true last (the C13 tail clause) */
+    E[n].key = (int)vrt_below(&g, 1000) - 500; E[n].mark = 0;
+    VRT_OP0("slist.push_back", "probe after the sort of a list with run structure");
+    cstl_slist_push_back(&a, &E[n]);
+    VRT_CHECK(cstl_slist_back(&a) == (void *)&E[n] && RORD[n - 1]->n.n == &E[n].n && E[n].n.n == NULL && cstl_slist_size(&a) == n + 1,
+              "slist.push_back.not-last", "push_back after sort did not append behind the last element (prev op sort, %zu elements)", n);
+    RLn = n + 1;
+    /* the result is one single run against the order asked for next, plus one element */
+    runs_sort_and_check(&a, -dir, 2);
+    VRT_COUNT_N("sort.comparator-sorted-another-list", RC.nested);
+    VRT_COUNT("sort.runs.cases");
+    if (G.runs > 64) VRT_COUNT("sort.runs.more-than-64-runs");
+    if (G.runs > 1024) VRT_COUNT("sort.runs.more-than-1024-runs");
+    if (mirror) VRT_COUNT("sort.runs.descending-runs"); else VRT_COUNT("sort.runs.ascending-runs");
+    if ((dir > 0) == !mirror) VRT_COUNT("sort.runs.comparator-agrees-with-runs"); else VRT_COUNT("sort.runs.comparator-against-runs");
+    VRT_MAX("max.sort.runs.elements", n);
+    vrt_sig(0, vrt_mix(vrt_mix(0x5045 + which, n), G.runs));
+    vrt_free(RORD); RORD = NULL;
+    vrt_free(E);
+    vrt_free(key);
+}
+static uint64_t nruns(void) { return 4 * (uint64_t)(vrt_thorough ? NRS_ALL : NRS_QUICK); }
 #define NBIG 2
 static uint64_t nrandom(void)
 {
@@ -619,16 +931,17 @@ static uint64_t ncases(void)
     is_clear_mode = strcmp(vrt_mode, "clear") == 0;
     if (vrt_thorough) { scopes = thorough_scopes; nscopes = sizeof(thorough_scopes) / sizeof(scopes[0]); }
     else { scopes = quick_scopes; nscopes = sizeof(quick_scopes) / sizeof(scopes[0]); }
-    return nscopes + (is_clear_mode ? 0 : NBIG) + nrandom();
+    return nscopes + (is_clear_mode ? 0 : NBIG + nruns()) + nrandom();
 }
 static void run_case(uint64_t idx)
 {
-    const uint64_t nb = is_clear_mode ? 0 : NBIG;
+    const uint64_t nb = is_clear_mode ? 0 : NBIG, nr = is_clear_mode ? 0 : nruns();
     /* none of these containers ever needs memory: every second case runs with an allocator that refuses everything */
     if (idx & 1) { vrt_fp_arm(NULL, 0, 1); VRT_COUNT("nomem.cases"); }
     if (idx < (uint64_t)nscopes) run_closure((int)idx);
     else if (idx < nscopes + nb) run_big(idx - nscopes);
-    else run_random(idx - nscopes - nb);
+    else if (idx < nscopes + nb + nr) run_runs(idx - nscopes - nb);
+    else run_random(idx - nscopes - nb - nr);
     vrt_fp_disarm();
 }
 static void winit(void)
@@ -637,10 +950,30 @@ static void winit(void)
     (void)ncases();
 }
 
+/* the names up to "sort.runs.cases" are observations every mode makes; the rest belong to the cases that mode "clear" (C15) leaves out */
+static const char *required_clear[64];
 static const char *const required[] = {
     "op.push_back", "op.erase_after.last", "op.pop_front.empty", "op.reverse", "op.sort",
-    "op.concat", "op.swap", "op.clear", "closure.states", "random.histories", NULL
+    "op.concat", "op.swap", "op.clear", "closure.states", "random.histories",
+    "op.foreach.reentrant", "op.foreach.reentrant.outer-stop", "foreach.reentrant.inner-early-stop",
+    "foreach.reentrant.inner-full-walk.same-list", "foreach.reentrant.inner-full-walk.other-list",
+    /* from here on: not in mode "clear" */
+    "sort.runs.cases", "sort.runs.more-than-64-runs", "sort.runs.more-than-1024-runs", "sort.runs.ascending-runs", "sort.runs.descending-runs",
+    "sort.runs.comparator-agrees-with-runs", "sort.runs.comparator-against-runs", "sort.comparator-sorted-another-list", NULL
 };
 static const struct vrt_harness H = { "slist", ncases, run_case, winit, NULL, required, 16 };
+static struct vrt_harness H_clear;
 
-int main(int argc, char **argv) { return vrt_main(argc, argv, &H); }
+int main(int argc, char **argv)
+{
+    int i;
+    /* mode "clear" has no sort-with-run-structure cases: it must not be asked for their counters */
+    for (i = 1; i + 1 < argc; i++) if (!strcmp(argv[i], "--mode") && !strcmp(argv[i + 1], "clear")) {
+        int k;
+        for (k = 0; k < 63 && required[k] && strcmp(required[k], "sort.runs.cases"); k++) required_clear[k] = required[k];
+        required_clear[k] = NULL;
+        H_clear = H; H_clear.required = required_clear;
+        return vrt_main(argc, argv, &H_clear);
+    }
+    return vrt_main(argc, argv, &H);
+}
